@@ -37,7 +37,9 @@ Record config := mkCfg {
   c_mindep : Z;       (* MinDeposit (one coin of the base denom) *)
   c_wait : Z;         (* ArbitrationTimeLimit + ComplaintRetrospect, seconds *)
   c_restricted : bool;(* RestrictedServiceFeeDenom *)
-  c_ndenoms : Z       (* denoms 0..n-1 have positive supply *)
+  c_ndenoms : Z;      (* denoms 0..n-1 have positive supply *)
+  c_msvc : Z;         (* the service name a module service is registered under (RegisterModuleService), -1 = none *)
+  c_mprov : Z         (* ... and its provider *)
 }.
 
 Record binding := mkB {
@@ -757,6 +759,46 @@ Definition end_block (c : config) (s : state) (dt : Z) : state :=
   let s2 := fold_left new_batch_handler (due (height s1) (newq s1)) s1 in
   with_iidx (with_time (with_height s2 (height s2 + 1)) (time s2 + dt)) 0.
 
+(** ** a call to a service served by a module (msgServer.CallService, second branch;
+    Keeper.RequestModuleService).  The context is created for the module's provider alone, with
+    timeout 1, not repeated; the call is rejected unless that provider passes the filter; the fee
+    its request will record is deducted (GetTotalServiceFees), ONE request is initiated for that provider
+    (InitiateRequests: no expiry is registered), the module answers at once (AddResponse), and the
+    context is stored COMPLETED from the copy read before the request was initiated. *)
+Definition initiate_ms (s : state) (id : ctxid) (x : context) (ps : list Z) : state :=
+  let batch := x_batch x + 1 in
+  let rs := mk_requests s x id batch 0 ps in
+  let x' := cx_bthr (cx_breq (cx_bresp (cx_brun (cx_batch x batch) true) 0) (Z.of_nat (length ps))) (x_thr x) in
+  let s1 := with_reqs s (fold_left (fun m e => set (fst e) (snd e) m) rs (reqs s)) in
+  with_ctxs s1 (set id x' (ctxs s1)).
+
+Definition call_module (c : config) (s : state) (txh svc : Z) (provs : list Z) (cons : Z) (inok : bool)
+    (capd capa timeout : Z) (rep : bool) (freq total : Z) : res :=
+  if negb (validate_request provs cons inok capa timeout rep freq total) then Rejj
+  else match create_context c s txh svc [c_mprov c] cons inok capd capa 1 false 0 0 0 0 false with
+  | None => Rejj
+  | Some (s1, id) =>
+    match get id (ctxs s1) with
+    | None => Rejj
+    | Some x =>
+      match filter_provs s1 x (x_provs x) with
+      | None | Some [] => Rejj       (* no rate / the module's provider does not satisfy the request *)
+      | Some (_ :: _) =>
+        (* GetTotalServiceFees of the module's provider: what its request records *)
+        let tot := total_fees s1 x [c_mprov c] in
+        match debit_all (led s1) (x_cons x) tot with
+        | None => Rejj
+        | Some l =>
+          let s2 := initiate_ms (with_led s1 (credit_all l REQ tot)) id x [c_mprov c] in
+          match respond c s2 (id, x_batch x + 1, height s, 0) (c_mprov c) 1 with
+          | Okk s3 => Okk (with_ctxs s3 (set id (cx_state x 2) (ctxs s3)))
+          | _ => Rejj
+          end
+        end
+      end
+    end
+  end.
+
 (** ** messages and steps *)
 Inductive msg :=
 | MDefine (author svc : Z) (ok : bool)
@@ -774,7 +816,8 @@ Inductive msg :=
 | MUpdateCtx (id : ctxid) (provs : list Z) (capd capa timeout freq total cons : Z)
 | MWithdraw (owner prov : Z).
 
-Definition exec_msg (c : config) (s : state) (txh : Z) (m : msg) : res :=
+(** the messages of a chain on which no module serves a service itself *)
+Definition exec_msg_plain (c : config) (s : state) (txh : Z) (m : msg) : res :=
   match m with
   | MDefine a svc ok => define s a svc ok
   | MBind svc p dd da pr qos o ow => bind c s svc p dd da pr qos o ow
@@ -792,6 +835,20 @@ Definition exec_msg (c : config) (s : state) (txh : Z) (m : msg) : res :=
   | MWithdraw o p => withdraw s o p
   end.
 
+(** is [svc] served by a module (GetModuleServiceByServiceName)? *)
+Definition module_served (c : config) (svc : Z) : bool := (0 <=? c_msvc c) && (svc =? c_msvc c).
+
+Definition exec_msg (c : config) (s : state) (txh : Z) (m : msg) : res :=
+  match m with
+  | MBind svc p dd da pr qos o ow =>
+      (* msgServer.BindService: a service served by a module cannot be bound by message *)
+      if module_served c svc then Rejj else bind c s svc p dd da pr qos o ow
+  | MCall svc ps cn io cd ca t r f tl =>
+      if module_served c svc then call_module c s txh svc ps cn io cd ca t r f tl
+      else call c s txh svc ps cn io cd ca t r f tl
+  | _ => exec_msg_plain c s txh m
+  end.
+
 Inductive step :=
 | Tx (txh : Z) (m : msg)
 | EndBlock (dt : Z)
@@ -801,7 +858,9 @@ Inductive step :=
 | ModCreate (txh svc : Z) (provs : list Z) (cons : Z) (capa timeout : Z) (rep : bool) (freq total st thr : Z)
 | ModPause (id : ctxid) (cons : Z)
 | ModStart (id : ctxid) (cons : Z)
-| ModKill (id : ctxid) (cons : Z).
+| ModKill (id : ctxid) (cons : Z)
+(* Keeper.AddServiceBinding called by the module that serves the service (or a binding it brought in its genesis) *)
+| ModBind (svc prov depd depa : Z) (pr : pricing) (qos : Z) (owner : Z).
 
 Definition exec_step (c : config) (s : state) (st : step) : res :=
   match st with
@@ -820,6 +879,7 @@ Definition exec_step (c : config) (s : state) (st : step) : res :=
   | ModPause id cn => k_pause s id cn
   | ModStart id cn => k_start s id cn
   | ModKill id cn => k_kill s id cn
+  | ModBind svc p dd da pr qos ow => bind c s svc p dd da pr qos true ow
   end.
 
 Definition apply (c : config) (s : state) (st : step) : state :=
